@@ -165,3 +165,11 @@ class global_flags:
 # every register export switched off (a verifier that does not want secrets
 # and intermediate values copied into the cache)
 REGISTERS_OFF = {k: False for k in range(1, 10)}
+
+
+def rewriting_extension(tape, stack, cache):
+    """an embedder signature extension: replaces sigfield1 by a digest of it
+    (not idempotent - the VM runs extensions exactly once per signature-related
+    instruction)"""
+    cache['sigfield1'] = hashlib.sha256(
+        b'ext' + bytes(cache.get('sigfield1', b''))).digest()[:11]
